@@ -110,6 +110,30 @@ def step_pred(fn, struct, arms):
     return '\n'.join(lines)
 
 
+def fold_built(fn, struct):
+    b = struct + 'Builder'
+    fields = STRUCTS[struct]
+    dflt = '%s { %s }' % (b, ', '.join('%s: None' % f for f, _, _ in fields))
+    lines = ['/// the builder state and property list reached by applying the grammar steps of `tr`, in order, from nothing',
+             'pub open spec fn %s_fold(tr: Seq<GdsRecord>, b: %s, p: Seq<GdsProperty>) -> bool decreases tr.len() {' % (fn, b),
+             '    if tr.len() == 0 { b == (%s) && p.len() == 0 }' % dflt,
+             '    else { exists|b0: %s, p0: Seq<GdsProperty>| %s_fold(tr.drop_last(), b0, p0) && #[trigger] %s_step(b0, p0, tr.last(), b, p) }' % (b, fn, fn),
+             '}',
+             '/// element `x` is what the collected fields build: every required field present and copied, optional fields default to None, the properties as collected',
+             'pub open spec fn %s_built(x: %s, b: %s, p: Seq<GdsProperty>) -> bool {' % (fn, struct, b)]
+    conj = []
+    for f, t, k in fields:
+        if f == 'properties':
+            conj.append('x.properties@ == p')
+        elif k == 'req':
+            conj.append('b.%s is Some && x.%s == b.%s->0' % (f, f, f))
+        elif k == 'opt':
+            conj.append('x.%s == (match b.%s { Some(v) => v, None => None })' % (f, f))
+    lines.append('    ' + '\n    && '.join(conj))
+    lines.append('}')
+    return '\n'.join(lines)
+
+
 def arm_proof(fn, struct, arms):
     b = struct + 'Builder'
     fields = [f for f, _, _ in STRUCTS[struct]]
@@ -138,8 +162,12 @@ def elem_directive(fn, struct):
 //@   spec
 //|     requires pwf(*old(self)),
 //|     ensures pwf(*final(self)), pm(*final(self)) <= pm(*old(self)), final(self).rdr.source.data@ == old(self).rdr.source.data@,
+//|         // the element returned is built from the fields that the records up to ENDEL set, one grammar step per record, in order
+//|         r is Ok ==> exists|tr: Seq<GdsRecord>, bb: %(struct)sBuilder, pp: Seq<GdsProperty>| #[trigger] %(fn)s_fold(tr, bb, pp) && %(fn)s_built(r->Ok_0, bb, pp),
+//@   before /^        loop \\{$/
+//|         let ghost mut tr: Seq<GdsRecord> = Seq::empty();
 //@   loop 1
-//|             invariant pwf(*self), pm(*self) <= pm(*old(self)), self.rdr.source.data@ == old(self).rdr.source.data@,
+//|             invariant pwf(*self), pm(*self) <= pm(*old(self)), self.rdr.source.data@ == old(self).rdr.source.data@, %(fn)s_fold(tr, b, props@),
 //|             decreases pm(*self),
 //@   before /let r = self\\.next\\(\\)\\?;/
 //|             let ghost b0 = b; let ghost p0 = props@; let ghost m0 = pm(*self);
@@ -150,9 +178,19 @@ def elem_directive(fn, struct):
 //|                 assert(pm(*self) < m0);
 %(arms)s
 //|                 assert(%(fn)s_step(b0, p0, r0, b, props@));
+//|                 let tr1 = tr.push(r0);
+//|                 assert(tr1.drop_last() =~= tr); assert(tr1.last() == r0);
+//|                 assert(%(fn)s_fold(tr1.drop_last(), b0, p0));
+//|                 assert(%(fn)s_step(b0, p0, tr1.last(), b, props@));
+//|                 assert(%(fn)s_fold(tr1, b, props@));
+//|                 tr = tr1;
 //|             }
+//@   before1 /b = b\\.properties\\(props\\);|let b = b\\.build\\(\\)\\?;/
+//|         let ghost bf = b; let ghost pf = props@;
+//@   before /^        Ok\\(b\\)$/
+//|         proof { assert(%(fn)s_fold(tr, bf, pf)); assert(%(fn)s_built(b, bf, pf)); }
 //@ end
-''' % {'fn': fn, 'arms': arm_proof(fn, struct, ELEMS[fn][1])}
+''' % {'fn': fn, 'struct': struct, 'arms': arm_proof(fn, struct, ELEMS[fn][1])}
 
 
 HEAD = r'''// Unit U4 gds_parse: gds21 record stream -> library tree (GdsParser) (C01, C03, C10).   GENERATED by tools/gen_gds_parse.py
@@ -196,6 +234,7 @@ def main():
     out.append(open(os.path.join(V, 'units', 'gds_parse', 'parser_core.rs')).read())
     for fn, (struct, arms) in ELEMS.items():
         out.append(step_pred(fn, struct, arms))
+        out.append(fold_built(fn, struct))
     out.append('impl GdsParser {')
     for fn, (struct, arms) in ELEMS.items():
         out.append(elem_directive(fn, struct))
